@@ -26,10 +26,14 @@ from pathlib import Path
 
 VERIF = Path(__file__).resolve().parents[2]
 REPO = Path(os.environ.get("VERIF_REPO", "/repo"))
+if not (REPO / "pymablock" / "algorithms.py").is_file():
+    raise SystemExit("VERIF_REPO=%s is not a pymablock source tree (pymablock/algorithms.py missing)" % REPO)
 COQ = VERIF / "coq"
 THEORIES = COQ / "theories"
 BUILD = VERIF / "_build"
-EVIDENCE = VERIF / "evidence"
+# evidence of runs against a changed tree (VERIF_REPO) never overwrites the evidence of /repo
+EVIDENCE = Path(os.environ["VERIF_EVIDENCE_DIR"]) if os.environ.get("VERIF_EVIDENCE_DIR") else (
+    VERIF / "evidence" if str(REPO) == "/repo" else VERIF / "_build" / "evidence_changed")
 REPLAY = VERIF / "replay"
 PY = "/venv/bin/python"
 
@@ -483,5 +487,5 @@ class Ctx:
             wall_s=round(time.time() - self.t0, 2),
             violations=violations,
         )
-        EVIDENCE.mkdir(exist_ok=True)
+        EVIDENCE.mkdir(parents=True, exist_ok=True)
         (EVIDENCE / (self.prop + ".json")).write_text(json.dumps(ev, indent=1, default=str, ensure_ascii=False))
